@@ -144,6 +144,11 @@ func (ct *Ciphertext[E, S]) UnmarshalCBOR(data []byte) error {
 	if dto.V == nil {
 		return encryption.ErrIsNil.WithMessage("ciphertext component V is nil")
 	}
+	// A ciphertext has exactly two components; a decoded vector of another arity must be
+	// rejected here rather than indexed (an attacker-supplied 1-element vector used to panic).
+	if len(dto.V.Components()) != 2 {
+		return encryption.ErrFailed.WithMessage("ciphertext must have exactly two components")
+	}
 	ctt, err := NewCiphertext(dto.V.Components()[0], dto.V.Components()[1])
 	if err != nil {
 		return errs.Wrap(err).WithMessage("could not create ciphertext from unmarshaled components")
